@@ -204,6 +204,9 @@ Clauses(ev, s) ==
   \* model names that are equal after case/punctuation folding (e.g. keys `Fields` and `field_` both give `Field`) collide as
   \* class names: the folded-equal finding listed under C11; the other properties do not range over such inputs
   IF ~ev.namesdomain /\ Claim # "C11" THEN <<>> ELSE
+  \* a call with an explicit types_style override asked for another literal style: not judged by C10 / C04 (it is there to
+  \* show that none of its options leaks into later calls)
+  IF ev.opts.styled /\ Claim \in {"C10", "C04"} THEN <<>> ELSE
   CASE Claim = "C01" -> C01Clauses(ev)
     [] Claim = "C03" -> C03Clauses(ev)
     [] Claim = "C04" -> C04Clauses(ev)
